@@ -67,10 +67,18 @@ pub fn encode(name: &str, is_table: bool) -> String {
 /// Determines if a name will work as CFB stream name once encoded.
 pub fn is_valid(name: &str, is_table: bool) -> bool {
     if name.is_empty() || (!is_table && name.starts_with(TABLE_PREFIX)) {
-        false
-    } else {
-        encode(name, is_table).encode_utf16().count() <= 31
+        return false;
     }
+    for chr in name.chars() {
+        // Characters in the range used by the encoding itself would decode
+        // to a different name (and collide with the names they decode to),
+        // and path separators would be interpreted by the CFB layer.
+        let value = chr as u32;
+        if (0x3800..0x4841).contains(&value) || chr == '/' || chr == '\\' {
+            return false;
+        }
+    }
+    encode(name, is_table).encode_utf16().count() <= 31
 }
 
 // ========================================================================= //
